@@ -41,9 +41,9 @@ prop = Prop(
 )
 prop.engine = "detloop"
 
-ints = st.lists(st.integers(0, 255), max_size=30)
+ints = st.lists(st.integers(0, 255), min_size=6, max_size=30)
 schedule = st.lists(st.integers(0, 3), max_size=8)
-step_desc = st.fixed_dictionaries({"k": st.sampled_from(list(range(30))), "p": ints})
+step_desc = st.fixed_dictionaries({"k": st.sampled_from(list(range(36))), "p": ints})
 
 workflow_case = st.fixed_dictionaries(
     {
@@ -127,8 +127,30 @@ def _independence(rec, viol, ca, cb, cache_ids, d_other, d_fresh, what: str) -> 
         viol.append(Violation(f"C08:shared-container:{t}", f"container shared between two loads / the cache without visible effect: {sorted(owners)}"))
 
 
-@prop.given("workflow", workflow_case, quick=2400, thorough=120000)
+class _gc_guard:
+    """cachebox 6.2.0 (pinned by the repository) can dead-lock the interpreter when a full garbage collection starts while
+    its ``cached`` wrapper runs ``locks.setdefault_with(key, <python callable>)``: the collector traverses the Cache object,
+    whose traverse hook takes the mutex the same thread already holds (observed once in a long run; back trace in the
+    agent report). Collections are therefore postponed to the end of each case; this changes no program semantics."""
+
+    def __enter__(self):
+        import gc
+
+        gc.disable()
+
+    def __exit__(self, *a):
+        import gc
+
+        gc.enable()
+
+
+@prop.given("workflow", workflow_case, quick=1600, thorough=100000, max_shards=8)
 async def check_workflow(case, rec):
+    with _gc_guard():
+        await _check_workflow(case, rec)
+
+
+async def _check_workflow(case, rec):
     from streamflow.core.workflow import Status, Workflow
     from streamflow.persistence.loading_context import DefaultDatabaseLoadingContext, WorkflowBuilder
     from vf import persist_gen as G
@@ -298,8 +320,13 @@ token_desc = st.one_of(
 token_case = st.fixed_dictionaries({"tok": token_desc, "port": st.integers(0, 1), "schedule": schedule})
 
 
-@prop.given("tokens", token_case, quick=4000, thorough=200000)
+@prop.given("tokens", token_case, quick=2400, thorough=160000, max_shards=8)
 async def check_tokens(case, rec):
+    with _gc_guard():
+        await _check_tokens(case, rec)
+
+
+async def _check_tokens(case, rec):
     from streamflow.core.workflow import Token, Workflow
     from streamflow.persistence.loading_context import DefaultDatabaseLoadingContext
     from vf import persist_gen as G
